@@ -10,7 +10,7 @@ META = {
     "rule": "X1 Resolver::values_names_in_scope (what completion offers) and Resolver::resolve_name (what a name resolves to) agree: same "
             "scope order, same ModuleDefId -> ResolveResult table, first occurrence wins; X2 the members offered after `module.` are "
             "filtered on visibility; X3 the replacement range is the identifier/keyword token under the cursor or the empty range at the "
-            "cursor. One obligation per table row / clause. X4 common fields are the intersection; X5/X6 imports are offered under the name they bind; X7 the visibility a constructor is declared with depends on the `opaque` modifier of its type.",
+            "cursor. One obligation per table row / clause. X4 common fields are the intersection; X5/X6 imports are offered under the name they bind; X7 the visibility a constructor is declared with depends on the `opaque` modifier of its type. X8/X9 = C11 H6/H7.",
     "explanation": "If the enumeration offered by completion and the lookup used by go-to-definition are two implementations of one "
                    "scope walk, then every offered name resolves and nothing resolvable is left out only if the two agree on order and "
                    "on the kinds of module items they treat as values. That agreement is decided from the MIR; the exact set for every "
@@ -148,6 +148,10 @@ def run(F, res, tier):
     tk = any(FL.short(callee(t) or callee_def(t)) == "syntax::best_token_at_offset" or (callee(t) or "") == "syntax::best_token_at_offset" for b, t in cn.calls())
     res.ob("X3", "token-at-cursor", "that token is best_token_at_offset(file, cursor)", tk, where=cn.loc(), how=str(tk))
     labels_are_scope_names(F, res)
+    # what salsa may back-date is decided by the equality of the query values (C11 H6/H7): a scope that compares equal although a
+    # visibility, an id or an order changed leaves the dependents with the old answer
+    from rules import c11 as _c11
+    _c11.value_equality_rules(F, res, rule="X8", rule2="X9")
 
 
 def extra_rules(F, res):
